@@ -200,6 +200,94 @@ def c10_slot(first: int, fate: int, second: int, third: int, g: int, p: int) -> 
             return rt.skip()
 
 
+class FlakyStream(object):
+    """a stream whose open() fails on demand (the watcher start then raises after the operation has suspended)"""
+    FAIL = False
+
+    def __init__(self, **kw):
+        pass
+
+    def open(self):
+        if FlakyStream.FAIL:
+            raise IOError('cannot open the log (injected)')
+
+    def __call__(self, data):
+        pass
+
+    def close(self):
+        pass
+
+
+def c10_reloadconfig(fail: int, edit: int) -> bool:
+    """
+    reloadconfig after an edit of the [circus] section (everything is stopped and started again in process) or of a
+    watcher; the restart may fail half-way (a stream cannot be opened).  Afterwards the slot is free and the next
+    state-changing requests are accepted: the daemon is not wedged.
+
+    pre: 0 <= fail <= 1 and 0 <= edit <= 2
+    post: _
+    """
+    import os
+    import shutil
+    import tempfile
+    fail = rt.pick(fail, 2)
+    edit = rt.pick(edit, 3)
+    tmp = tempfile.mkdtemp(prefix='c10_')
+    path = os.path.join(tmp, 'circus.ini')
+
+    def write(check_delay, np_b, cmd_a):
+        with open(path, 'w') as f:
+            f.write('\n'.join(['[circus]', 'check_delay = %d' % check_delay, 'endpoint = tcp://127.0.0.1:5555',
+                               'pubsub_endpoint = tcp://127.0.0.1:5556', '',
+                               '[watcher:a]', 'cmd = %s' % cmd_a, 'numprocesses = 1', 'graceful_timeout = 0.2',
+                               'stdout_stream.class = vtlib.harness.c10.FlakyStream', '',
+                               '[watcher:b]', 'cmd = progb', 'numprocesses = %d' % np_b, 'graceful_timeout = 0.2', '']))
+    FlakyStream.FAIL = False
+    write(-1, 1, 'proga')
+    try:
+        with World() as w:
+            k = w.kernel
+            k.behaviour = lambda i, argv: Beh(obey=0.0)
+            from vtlib.world import pipes as vpipes
+            k.pipes = vpipes.PipeTable(k)
+            import circus.arbiter as _ca
+            real_get_config = _ca.get_config
+
+            def get_config_untraced(p_):
+                with rt.untraced():
+                    return real_get_config(p_)
+            w._patch(_ca, 'get_config', get_config_untraced)
+            w.boot_from_config(path)
+            if edit == 0:
+                write(-2, 1, 'proga')          # arbiter-level change: in-process restart of every watcher
+            elif edit == 1:
+                write(-1, 1, 'proga2')         # the watcher with the flaky stream is re-created
+            else:
+                write(-1, 2, 'proga')          # numprocesses only
+            FlakyStream.FAIL = bool(fail)
+            r = w.call('reloadconfig', waiting=True, max_time=20.0)
+            w.run_for(1.0)
+            FlakyStream.FAIL = False
+            ok = True
+            if w.arbiter._exclusive_running_command is not None:
+                rt.note('slot still held by %r after reloadconfig (fail=%d edit=%d)', w.arbiter._exclusive_running_command, fail, edit)
+                ok = False
+            for cmd_, props in (('incr', {'name': 'b', 'nb': 1}), ('decr', {'name': 'b', 'nb': 1}), ('stop', {'name': 'b', 'match': 'simple'}),
+                                ('start', {'name': 'b', 'match': 'simple'})):
+                pr = w.call(cmd_, max_time=10.0, **props)
+                w.quiesce()
+                if pr.status != 'ok':
+                    rt.note('after reloadconfig (fail=%d edit=%d, reply %r) %s is refused: %r', fail, edit,
+                            r.reply.get('status') if r.reply else None, cmd_, pr.reply)
+                    ok = False
+            return rt.verdict(ok)
+    except (scen.Diverged, scen.BlockedLoop):
+        return rt.skip()
+    finally:
+        FlakyStream.FAIL = False
+        shutil.rmtree(tmp, ignore_errors=True)
+
+
 def _canary_refusal_frees():
     """a refused call releases the slot of the operation in flight"""
     import functools
@@ -265,6 +353,8 @@ def plan(tier):
     q = tier == 'quick'
     sh = [dict({'first': i, 'gmax': 1 if q else 6}, **({'thirds': [0, 5]} if q else {})) for i in range(len(FIRST))]
     return [
+        Cond('c10_reloadconfig', budget=120, twins=1,
+             bounds={'edit': 'S{[circus] option (in-process restart), watcher cmd, numprocesses only}', 'fail': 'S{restart succeeds, a stream open() raises}'}),
         Cond('c10_slot', shards=sh, budget=240 if q else 1500, twins=2,
              bounds={'first': 'S: shard key over %r' % (FIRST,), 'fate': 'S%r' % (FATES,), 'second,third': 'S%r' % (SECOND,),
                      'g': 'R[0,gmax] loop turns between the first and the second request', 'p': 'S[0,2] parameter variants'}),
